@@ -17,4 +17,5 @@ XffZero == {<<0, 1>>}
 XffHalf == {<<1, 2>>}
 Vals1 == {4}
 Vals2 == {4, -8}
+Vals0 == {0, 4}
 =============================================================================
